@@ -15,7 +15,7 @@ if patch:
 try:
     prog = Program(repo)
     for fi in prog.iter_functions():
-        if fi.qualname.endswith(args[0]):
+        if fi.qualname.endswith(args[0]) and (fi.qualname == args[0] or fi.qualname.endswith("." + args[0]) or "." not in args[0]):
             print("#", fi.qualname); print(ast.unparse(flat(prog, fi, fi.cls).node)); print()
 finally:
     if tmp: shutil.rmtree(tmp)
